@@ -15,13 +15,13 @@ CLAIMED = {
  "C03": ("vgraph+subjects", "property-based testing: tiling/termination invariants over generated (definition,input) pairs with skipped regions observed from the subject, plus structural invariants of every captured graph",
          "Exploration. Step-bounded iteration, strictly increasing non-empty spans, gaps == logged skips, end at len, repeated None; root records nothing / no eoi edge after eoi edge; empty-matching definitions are generated in C19's must-reject classes.", "Trusted: the bound 2*len+4 next() calls as termination watchdog.", "7/C03"),
  "C04": ("subjects", "property-based testing on compiled str-mode lexers: char-boundary predicate on every observable span before slice()/remainder() are called and compared",
-         "Exploration over generated Unicode-heavy definitions x valid UTF-8 inputs in 4 configurations. The acceptance clause (patterns that can match invalid UTF-8 are rejected in str mode) is exercised through byte-class items in the generators: such definitions never reach the str subjects.", "Trusted: Rust's str::is_char_boundary.", "7/C04"),
+         "Exploration. Runtime clause: generated Unicode-heavy definitions x valid UTF-8 inputs in 4 configurations, every span (also through spanned()) checked for char boundaries before slice()/remainder() are compared. Acceptance clause (tier G): for every str-mode definition the derive accepts, each pattern's and subpattern's reference DFA is walked in product with a UTF-8 validator; a match while mid-character is a counterexample.", "Trusted: Rust's str::is_char_boundary.", "7/C04"),
  "C05": ("apicheck+subjects", "property-based testing + sanitizer: Source::read model check (proptest, ASan builds), compiled lexers on exactly sized inputs, default-vs-forbid_unsafe build differential on full observation records",
-         "Exploration. read(): Some iff offset+N<=len without overflow, bytes equal (4 builds + 2 ASan builds). Lexing: no panic in any configuration; every observation record identical between default and forbid_unsafe builds (tail-call and state-machine).", "Trusted: ASan redzones for out-of-allocation reads (sources are exactly sized heap allocations in the read check).", "7/C05"),
+         "Exploration. read(): Some iff offset+N<=len without overflow (offsets near len, usize::MAX and usize::MAX - address), bytes equal (4 builds + 2 ASan builds). Lexing: exactly sized heap copies of every input and of every prefix of short inputs, no panic in any configuration, two ASan builds; every observation record identical between default and forbid_unsafe builds (tail-call and state-machine); thorough adds release builds of the subjects.", "Trusted: ASan redzones for out-of-allocation reads (sources are exactly sized heap allocations in the read check).", "7/C05"),
  "C06": ("subjects", "differential testing between builds: identical generated sources compiled with and without state_machine_codegen; full observation records (items, spans, error codes, logs, partial-mode runs) compared byte for byte",
-         "Exploration. Equivalence clause decided by build-against-build comparison over the covering + random inputs of every subject. The stack-bound clause is not yet checked in this revision.", "Trusted: deterministic input generation (same seed => same inputs in both builds).", "7/C06"),
+         "Exploration. Equivalence clause decided by build-against-build comparison (items, spans, error codes, skip/callback logs, partial-mode runs) over the covering + random inputs of every subject incl. the callbacks family. Stack clause: child process per (stress definition, input shape, size 16 .. 4*10^6, thorough 16*10^6) on a fixed 256 KiB thread stack in both state-machine builds; death at a larger size after the 16-unit baseline succeeded is the violation (verified to discriminate: the tail-call build dies at 10^5 consecutive skips).", "Trusted: deterministic input generation (same seed => same inputs in both builds).", "7/C06"),
  "C07": ("subjects", "property-based testing on compiled lexers: every split point of every input; partial items must be a leading run of the one-shot items of the input and of generated alternative continuations; position and chunked-history relations",
-         "Exploration in 4 configurations; soundness (a), position (b) and chunked history (d) relations are differential against the same build. The completeness clause (yield as soon as determined) is not yet checked in this revision.", "Trusted: nothing beyond the subject itself (same-build differential).", "7/C07"),
+         "Exploration in 4 configurations; soundness (a: leading run of the one-shot items of the input and of 6 generated continuations), position (b) and chunked history (d) are differential against the same build; completeness (c) uses the reference: every committed item must be determined by the buffer and at None the pending attempt must depend on more input (RefLexer::wait over all 257 next symbols), with the documented one-char slack for look-around definitions.", "Trusted: the subject itself for (a),(b),(d); regex-automata per-pattern DFAs for the determinedness computation (c).", "7/C07"),
  "C08": ("vgraph", "property-based testing with a product-automaton oracle: breadth-first walk of the product of per-pattern reference matchers computing top-priority tie sets; accept/reject and reported sets compared",
          "Exploration over thousands of overlap-dense definitions; both verdicts frequent (about 30% rejected).", REF, "7/C08"),
  "C09": ("vgraph", "property-based testing: captured leaf priority vs the statement's rule on the harness' own parse, cross-checked by a shortest-path (0-1 BFS) computation of the minimum char count on the pattern DFA; literal/regex pair consequence",
@@ -31,7 +31,7 @@ CLAIMED = {
  "C11": ("vgraph", "property-based + metamorphic testing: subpattern DAGs rendered with references and AST-inlined; reference lexer from the inlined text; generate() equality with the inlined definition; planted undefined/forward references must be rejected",
          "Exploration (tier G).", REF, "7/C11"),
  "C12": ("subjects", "differential (twin) property testing on compiled lexers: every str-mode subject is compiled a second time with utf8 = false in the same module; Ok tokens+spans and error byte sets compared on valid UTF-8 inputs",
-         "Exploration in 4 configurations. The second clause (byte-mode definitions with Unicode-aware patterns on arbitrary bytes never match across invalid sequences) is exercised by C01's byte-mode Unicode family against the reference; the acceptance clause by the generators' byte-class items (rejected definitions never become str subjects).", "Trusted: nothing beyond the two compiled twins (twin-against-twin).", "7/C12"),
+         "Exploration in 4 configurations: twin-against-twin on valid UTF-8 for every str-mode core and subpattern subject; byte-mode subjects on inputs that are not valid UTF-8 are judged against the reference (Unicode-aware patterns never match across invalid sequences); acceptance clause shared with C04 (tier G, DFA x UTF-8 validator).", "Trusted: the two compiled twins for the first clause; regex-automata DFAs for the byte-mode and acceptance clauses.", "7/C12"),
  "C13": ("subjects", "model-based property testing on compiled lexers: callbacks of every documented return type with pure decision functions; model = documented table applied to the stream of a callback-free twin (one unit variant per leaf) restarted at model positions; callback and error-callback logs compared; Skip-vs-skip-pattern twin",
          "Exploration in 4 configurations over generated callback definitions (4 attachment forms, bumps, custom error type with From, optional error callback).", "Trusted: the callback-free twin of the same build for pattern selection (agreement with the regex language is C01's business).", "7/C13"),
  "C14": ("apicheck", "model-based (stateful) property testing: proptest op histories interpreted against the real Lexer and a reference model in lock-step; next() expected from a fresh lexer over the suffix",
@@ -45,9 +45,9 @@ CLAIMED = {
  "C18": ("vgraph", "metamorphic property testing: every permutation of named attribute arguments and dependency-respecting permutations of #[logos(...)] items vs the canonical order (acceptance and generate() equality)",
          "Exploration (tier G).", "Trusted: generate() string equality as lexer equivalence (sufficient, not necessary; skips reordering uses leaf multiset + automaton size).", "7/C18"),
  "C19": ("vgraph+rustc", "property-based fuzzing of the derive with structured attribute soup under catch_unwind (library path) and through rustc with the real proc-macro on stable (JSON diagnostics), plus constructively generated must-reject classes",
-         "Exploration. No panic in either path; must-reject => compile_error; library diagnostics reappear in rustc's output; accepted => output parses and graph invariants hold.", "Trusted: rustc's 'proc-macro derive panicked' diagnostic as panic detector in tier P.", "7/C19"),
- "C20": ("subjects", "property-based testing with a read-trace hook: per attempt, read offsets monotone, reads linear in bytes examined, first read at the attempt start; compiled lexers in 4 configurations",
-         "Exploration over the core subject family; the adversarial long-input family is not yet included in this revision.", "Trusted: the verif_hooks trace records every LexerInternal::read.", "7/C20"),
+         "Exploration. No panic in either path (library under catch_unwind, real proc-macro through rustc); non-termination of a derive call (90 s watchdog) is a violation; must-reject => compile_error; library diagnostics reappear in rustc's output; accepted => output parses, graph invariants hold, and every definition of the compiled subject set builds in all four configurations.", "Trusted: rustc's 'proc-macro derive panicked' diagnostic as panic detector in tier P.", "7/C19"),
+ "C20": ("subjects", "property-based testing with a read-trace hook: per attempt, read offsets monotone, reads linear in bytes examined, first read at the attempt start; compiled lexers in 4 configurations, adversarial stress family on long inputs",
+         "Exploration over the core subject family (covering + random inputs) and a fixed stress family of nested/overlapping repetitions ((a*)*b, (c|cc)+d, (e|ef)(g|fgh)*i, k(.*l)?, keyword/identifier overlaps, escaped strings, callback skips) on long inputs (64 KiB linear shapes, 2 KiB quadratic shapes; thorough 256 KiB / 8 KiB).", "Trusted: the verif_hooks trace records every LexerInternal::read.", "7/C20"),
 }
 PENDING = {}
 
@@ -87,6 +87,7 @@ m = {
  "engines": [
   {"name": "vgraph", "path": "harness/vgraph", "serves_properties": ["C01", "C02", "C03", "C08", "C09", "C10", "C11", "C16", "C17", "C18", "C19"], "kind_free_text": "tier G/L/P: proptest-driven in-process checks linking logos-codegen (capture hook) and the reference model; drives logos-cli and rustc"},
   {"name": "subjects", "path": "harness/subjgen + harness/subject-rt (generated crates under work/subjects)", "serves_properties": ["C01", "C02", "C03", "C04", "C05", "C06", "C07", "C12", "C13", "C20"], "kind_free_text": "tier X: generated #[derive(Logos)] subjects compiled in 4 feature configurations, proptest drivers inside the compiled binary, build-against-build dumps"},
+  {"name": "fuzz", "path": "fuzz", "serves_properties": ["C01", "C02", "C03", "C04", "C05", "C07", "C12", "C14", "C15", "C19", "C20"], "kind_free_text": "tier F (thorough only): cargo-fuzz / libFuzzer + ASan targets fuzz_lex, fuzz_api, fuzz_derive with the property oracles inside the target"},
   {"name": "apicheck", "path": "harness/apicheck", "serves_properties": ["C05", "C14", "C15"], "kind_free_text": "tier A: fixed definitions, proptest histories, debug/release x default/forbid_unsafe + ASan"},
  ],
  "checks": checks,
